@@ -77,9 +77,16 @@ pub fn window(fw: u16, fh: u16, ws: WindowSize, cap: u16) -> BoxedStrategy<(u16,
         .prop_flat_map(move |(w, h)| {
             let mx = (fw - w) as u32;
             let my = (fh - h) as u32;
-            (Just(w), Just(h), edge_u32(mx), edge_u32(my))
+            (Just(w), Just(h), edge_u32(mx), edge_u32(my), 0u8..8)
         })
-        .prop_map(|(w, h, ox, oy)| (w, h, ox as u16, oy as u16))
+        .prop_map(move |(w, h, ox, oy, centre)| {
+            // one window in eight is centred on both axes (equal margins left/right and top/bottom)
+            if centre == 0 {
+                (w, h, (fw - w) / 2, (fh - h) / 2)
+            } else {
+                (w, h, ox as u16, oy as u16)
+            }
+        })
         .boxed()
 }
 
